@@ -25,6 +25,8 @@ for c in m['caught_by']: print(c['check'], c['tier'].split()[0])")
   git -C /repo checkout -q -- . ; git -C /repo clean -fdq -- src tests
   echo "$id:$res"
 done
+# rebuild the simulator from the restored tree, so that a later direct use of the binary is not a mutant
+(cd /verif/sim && CARGO_NET_OFFLINE=true cargo build --release --offline >/dev/null 2>&1)
 find replays -name '*.json' -delete
 rm -f /dev/shm/regress.$$.log
 exit $fail
